@@ -7,7 +7,8 @@ CONSTANTS
     BgAllFiles = TRUE
     WaitHonoursTimeout = TRUE
     ThresholdOnEffective = TRUE
+    FailOnCacheError = TRUE
     AllowReg = TRUE
 SPECIFICATION MonSpec
-INVARIANTS AfterPrefetchPrioritizedReadsAreLocal NoPrefetchLandmarkNoTraffic MonConfiguredSizeCapped PrefetchTrafficConfined AfterBackgroundFetchOfflineReadable WaiterClosedAtEnd MonWaitNilOnlyIfEndedOrAsync MonWaitBounded MonCompletes
+INVARIANTS AfterPrefetchPrioritizedReadsAreLocal NoPrefetchLandmarkNoTraffic MonConfiguredSizeCapped PrefetchTrafficConfined AfterBackgroundFetchOfflineReadable MonSuccessMeansCached WaiterClosedAtEnd MonWaitNilOnlyIfEndedOrAsync MonWaitBounded MonCompletes
 CHECK_DEADLOCK FALSE
